@@ -231,6 +231,11 @@ class DateTime:
         )
 
         if format:
+            if not isinstance(format, str):
+                raise LiquidTypeError(
+                    f"expected a string argument, found {type(format).__name__}",
+                    token=None,
+                )
             _format = self.formats.get(format, format)
         else:
             format_string = context.resolve(self.format_var)
